@@ -25,6 +25,7 @@ def run(chk):
     batcher.receiver_flags(chk, P, "C07")
     batcher.one_critical_section(chk, P, "C07")
     batcher.watchers_after_last_attempt(chk, P, "C07")
+    batcher.watcher_lists(chk, P, "C07")
     batcher.retry_remainder(chk, P, "C07")
     batcher.who_may(chk, P, "C07")
     batcher.blocking_flush_sync(chk, P, "C07")
